@@ -1125,7 +1125,7 @@ def dispatch_cases(ctx: Ctx, rng, n: int):
                     impl = "?" + repr(out)[:40]
             model = ctx.driver.ask1("c10 dispatch " + hexs(t))
             ctx.traces += 1
-            ctx.count("dispatch:" + impl[:2].rstrip(":"))
+            ctx.count("dispatch:" + {"S": "string", "E": "empty-container", "P": "literal_eval"}.get(impl[:1], impl[:12]))
             if model != impl:
                 ctx.disagree("text layer of the codec (dispatch on the first word)", case, model, impl)
     finally:
@@ -1153,7 +1153,8 @@ def run(ctx: Ctx):
                 "restrict and info (Writable, branches of its write/read taken: 'branch …' counts; 'topology …' counts are "
                 "computed from the real objects); WritableS => model rt == model restrict is checked as an instance of "
                 "theorem read_write; non-trivial = at least one field; distinct by canonical set-up operations, level and "
-                "meta; the codec is additionally exercised value by value")
+                "meta; the codec is additionally exercised value by value, and its text layer (first word / blank / empty-container "
+                "spellings) on ~1800 texts built from the type words and tricky rests with _literal_eval replaced by a recorder")
     ctx.trusted += ["h5py / HDF5 store and return what they are given (modelled as an abstract tree of groups)",
                     "CPython repr / ast.literal_eval are inverse on literals (the codec model works on the parsed tree)",
                     "text is stored as fixed-width bytes: non-ASCII text and trailing NULs are outside 'can be written'"]
